@@ -9,7 +9,26 @@ import (
 // a valid UUID, which may be replaced if a previous operation created a
 // matching named UUID mapping. Returns the updated operations or an error.
 func ExpandNamedUUIDs(ops []Operation, schema *DatabaseSchema) ([]Operation, error) {
+	ops, _, err := ExpandNamedUUIDsUpTo(ops, schema)
+	if err != nil {
+		return nil, err
+	}
+	return ops, nil
+}
+
+// ExpandNamedUUIDsUpTo is ExpandNamedUUIDs for a caller that reports the
+// error as the result of the operation at fault: along with the error it
+// returns the index of the first operation that cannot be expanded, the
+// operations before it are expanded.
+func ExpandNamedUUIDsUpTo(ops []Operation, schema *DatabaseSchema) ([]Operation, int, error) {
 	uuidMap := make(map[string]string)
+	failedAt := len(ops)
+	var failed error
+	fail := func(i int, err error) {
+		if i < failedAt {
+			failedAt, failed = i, err
+		}
+	}
 
 	// Pass 1: replace the named UUID with a real UUID for each operation and
 	// build the substitution map
@@ -21,14 +40,16 @@ func ExpandNamedUUIDs(ops []Operation, schema *DatabaseSchema) ([]Operation, err
 		}
 
 		if err := ValidateUUID(op.UUID); err != nil {
-			return nil, fmt.Errorf("operation UUID %q invalid: %v", op.UUID, err)
+			fail(i, fmt.Errorf("operation UUID %q invalid: %v", op.UUID, err))
+			continue
 		}
 
 		if op.UUIDName != "" {
 			if uuid, ok := uuidMap[op.UUIDName]; ok {
 				if op.UUID != "" && op.UUID != uuid {
-					return nil, fmt.Errorf("named UUID %q maps to UUID %q but found existing UUID %q",
-						op.UUIDName, uuid, op.UUID)
+					fail(i, fmt.Errorf("named UUID %q maps to UUID %q but found existing UUID %q",
+						op.UUIDName, uuid, op.UUID))
+					continue
 				}
 				// If there's already a mapping for this named UUID use it
 				op.UUID = uuid
@@ -41,6 +62,9 @@ func ExpandNamedUUIDs(ops []Operation, schema *DatabaseSchema) ([]Operation, err
 
 	// Pass 2: replace named UUIDs in operation fields with the real UUID
 	for i := range ops {
+		if i >= failedAt {
+			break
+		}
 		op := &ops[i]
 		switch op.Op {
 		case OperationCommit, OperationAbort, OperationComment, OperationAssert:
@@ -49,28 +73,28 @@ func ExpandNamedUUIDs(ops []Operation, schema *DatabaseSchema) ([]Operation, err
 		}
 		tableSchema := schema.Table(op.Table)
 		if tableSchema == nil {
-			return nil, fmt.Errorf("table %q not found in schema %q", op.Table, schema.Name)
+			return ops, i, fmt.Errorf("table %q not found in schema %q", op.Table, schema.Name)
 		}
 
-		for i, condition := range op.Where {
+		for j, condition := range op.Where {
 			newVal, err := expandColumnNamedUUIDs(tableSchema, op.Table, condition.Column, condition.Value, uuidMap)
 			if err != nil {
-				return nil, err
+				return ops, i, err
 			}
-			op.Where[i].Value = newVal
+			op.Where[j].Value = newVal
 		}
-		for i, mutation := range op.Mutations {
+		for j, mutation := range op.Mutations {
 			newVal, err := expandColumnNamedUUIDs(tableSchema, op.Table, mutation.Column, mutation.Value, uuidMap)
 			if err != nil {
-				return nil, err
+				return ops, i, err
 			}
-			op.Mutations[i].Value = newVal
+			op.Mutations[j].Value = newVal
 		}
 		for _, row := range op.Rows {
 			for k, v := range row {
 				newVal, err := expandColumnNamedUUIDs(tableSchema, op.Table, k, v, uuidMap)
 				if err != nil {
-					return nil, err
+					return ops, i, err
 				}
 				row[k] = newVal
 			}
@@ -78,13 +102,13 @@ func ExpandNamedUUIDs(ops []Operation, schema *DatabaseSchema) ([]Operation, err
 		for k, v := range op.Row {
 			newVal, err := expandColumnNamedUUIDs(tableSchema, op.Table, k, v, uuidMap)
 			if err != nil {
-				return nil, err
+				return ops, i, err
 			}
 			op.Row[k] = newVal
 		}
 	}
 
-	return ops, nil
+	return ops, failedAt, failed
 }
 
 func expandColumnNamedUUIDs(tableSchema *TableSchema, tableName, columnName string, value interface{}, uuidMap map[string]string) (interface{}, error) {
